@@ -3,7 +3,6 @@
    the constructor-built field of the list model; histories by induction. *)
 From V.model Require Import Base RelLex RelParse RelEdit RelEditSpec RelEditTree.
 From V.proofs Require Import BaseP RelEditP RelEditStP.
-Set Default Timeout 60.
 
 Lemma run_ops_cons v o rest st x st1 st' :
   runs (run_op v o) st x st1 -> run_ops v rest st1 = Ok st' -> run_ops v (o :: rest) st = Ok st'.
